@@ -1429,3 +1429,322 @@ Proof.
     + apply fine_good. apply (proj1 (fine_set xs Fa)). eapply nth_error_In; eauto.
   - intros s [= <-]. apply nth_error_None. exact E.
 Qed.
+
+(* ------------------------------------------------------------------ \X and {e : x \in S, y \in T} *)
+Lemma fine_tup combo : (forall x, In x combo -> fine x) -> fine (VTup combo).
+Proof. intros H. repeat split; cbn; apply All_In; intros x Hx; apply H; auto. Qed.
+
+Lemma product_members sets combo : (forall s, In s sets -> forall x, In x s -> fine x) ->
+  In combo (product sets) -> forall x, In x combo -> fine x.
+Proof.
+  intros Hs Hc. change (product sets) with (sproduct sets) in Hc. apply in_sproduct in Hc.
+  induction Hc as [|x s c sets' Hx Hr IH]; intros y []; subst; [apply (Hs s); cbn; auto|].
+  apply IH; auto. intros s' Hs' z Hz. apply (Hs s'); cbn; auto.
+Qed.
+
+Lemma as_sets_fine vs sets : fine_sets vs -> vs = map VSet sets ->
+  forall s, In s sets -> forall x, In x s -> fine x.
+Proof.
+  intros Hf -> s Hs x Hx. assert (F : fine (VSet s)) by (apply Hf, in_map, Hs).
+  apply (proj1 (fine_set s F)); auto.
+Qed.
+
+Theorem cross_lemma vs : fine_sets vs -> allowed False (spec_cross (map norm vs)) (CrossProduct vs).
+Proof.
+  intros Hf. unfold spec_cross, CrossProduct.
+  pose proof (as_sets_spec vs Hf) as HA. destruct (as_sets vs) as [sets| | |]; try contradiction.
+  - destruct HA as [E ->]. cbn [bind].
+    apply build_set_result.
+    + intros y Hy. apply in_map_iff in Hy as (combo & <- & Hc). apply fine_tup.
+      apply (product_members sets combo); auto. apply (as_sets_fine vs sets Hf E).
+    + intros c. rewrite map_map. rewrite !in_map_iff. split.
+      * intros (combo & <- & Hc). exists (map canon combo). split; [reflexivity|].
+        apply in_sproduct, forall2_in_canon. exists combo. split; auto. apply in_sproduct. exact Hc.
+      * intros (cc & <- & Hc). apply in_sproduct, forall2_in_canon in Hc as (combo & Hc & <-).
+        exists combo. split; [reflexivity|]. apply in_sproduct. exact Hc.
+  - rewrite HA. reflexivity.
+Qed.
+
+(* a Go body closure that never panics on members of the sets and computes g on the denoted values *)
+Definition body_refines (b : bodyT) (g : list value -> value) (sets : list (list value)) : Prop :=
+  forall combo, Forall2 (fun x s => In x s) combo sets ->
+  exists r, b combo = Ok r /\ fine r /\ canon r = g (map canon combo).
+
+Lemma compr_loop_spec b g combos : forall acc,
+  (forall c, In c combos -> exists r, b c = Ok r /\ fine r /\ canon r = g (map canon c)) ->
+  (forall y, In y acc -> fine y) -> NoDup (map canon acc) ->
+  exists res, compr_loop b combos acc = Ok res /\ (forall y, In y res -> fine y) /\ NoDup (map canon res) /\
+              (forall c, In c (map canon res) <-> In c (map canon acc) \/ exists cb, In cb combos /\ g (map canon cb) = c).
+Proof.
+  induction combos as [|cb combos IH]; intros acc Hb Ha Nd; cbn.
+  - exists acc. split; [reflexivity|]. split; [auto|]. split; [auto|]. intros c. split; [auto|intros [Hc|(x & [] & _)]; auto].
+  - destruct (Hb cb (or_introl eq_refl)) as (r & -> & Fr & Er). cbn.
+    destruct (set_add_rep acc r (fun y Hy => proj1 (Ha y Hy)) (proj1 Fr) Nd) as (R1 & N1 & M1).
+    destruct (IH (set_add acc r)) as (res & E & F & N & M); auto.
+    + intros c Hc. apply Hb. right; auto.
+    + intros y Hy. apply set_add_In in Hy as [Hy| ->]; auto.
+    + exists res. split; auto. split; auto. split; auto. intros c. rewrite M, M1. split.
+      * intros [[H| ->]|(cb' & Hcb & E')]; auto.
+        -- right. exists cb. cbn; auto.
+        -- right. exists cb'. cbn; auto.
+      * intros [H|(cb' & [<-|Hcb] & E')]; auto.
+        -- left. right. congruence.
+        -- right. exists cb'; auto.
+Qed.
+
+Theorem compr_lemma vs b g : fine_sets vs ->
+  (forall sets, vs = map VSet sets -> body_refines b g sets) ->
+  allowed False (spec_compr (map norm vs) g) (SetComprehension vs b).
+Proof.
+  intros Hf Hb. unfold spec_compr, SetComprehension.
+  pose proof (as_sets_spec vs Hf) as HA. destruct (as_sets vs) as [sets| | |]; try contradiction.
+  - destruct HA as [E ->]. cbn [bind].
+    destruct (compr_loop_spec b g (product sets) []) as (res & -> & F & N & M).
+    + intros c Hc. apply (Hb sets E). apply in_sproduct. exact Hc.
+    + intros y [].
+    + constructor.
+    + cbn [bind]. apply set_result; auto.
+      intros c. rewrite M. cbn [map In]. rewrite in_map_iff. split.
+      * intros [[]|(cb & Hcb & <-)]. exists (map canon cb). split; auto.
+        apply in_sproduct, forall2_in_canon. exists cb. split; auto. apply in_sproduct. exact Hcb.
+      * intros (cc & <- & Hc). apply in_sproduct, forall2_in_canon in Hc as (cb & Hc & <-).
+        right. exists cb. split; auto. apply in_sproduct. exact Hc.
+  - rewrite HA. reflexivity.
+Qed.
+
+(* ------------------------------------------------------------------ function-valued operators: @@, records, [x \in S |-> e] *)
+Lemma ckvp_ckv l : map ckvp l = map ckv l.
+Proof. apply map_ext. intros [k v]. reflexivity. Qed.
+
+Lemma norm_fun_elems kvs : (forall k v, In (k, v) kvs -> plain k /\ plain v) ->
+  norm (VFun kvs) = mk_graph (map ckv kvs).
+Proof.
+  intros H. cbn [norm]. unfold mk_graph. f_equal. f_equal. apply map_ext_in. intros [k v] Hin.
+  destruct (H k v Hin) as [Pk Pv]. cbn. rewrite !norm_plain by auto. reflexivity.
+Qed.
+
+(* the result of a function-valued operator *)
+Lemma fun_result (R : Prop) res spec_l :
+  (forall k v, In (k, v) res -> fine k /\ fine v) -> NoDup (map canon (map fst res)) ->
+  (forall p, In p (map ckv res) <-> In p spec_l) ->
+  allowed R (SOk (mk_graph spec_l)) (Ok (VFun res)).
+Proof.
+  intros Hf Nd Hm. apply allowed_ok.
+  - rewrite norm_fun_elems by (intros k v Hin; destruct (Hf k v Hin) as [(_ & _ & Pk) (_ & _ & Pv)]; auto).
+    unfold mk_graph. f_equal. apply kvsort_ext. exact Hm.
+  - split.
+    + split; auto. apply All_In. intros [k v] Hin. destruct (Hf k v Hin) as [(Rk & _) (Rv & _)]. cbn. auto.
+    + cbn. apply All_In. intros [k v] Hin. destruct (Hf k v Hin) as [(_ & Bk & _) (_ & Bv & _)]. cbn. auto.
+Qed.
+
+Lemma fine_pairs_rep l : (forall k v, In (k, v) l -> fine k /\ fine v) ->
+  forall p, In p l -> rep_ok (fst p) /\ rep_ok (snd p).
+Proof. intros H [k v] Hin. destruct (H k v Hin) as [(Rk & _) (Rv & _)]. auto. Qed.
+
+Inductive fun_arg (a : value) : Type :=
+| FA_fun kvs : a = VFun kvs -> fun_arg a
+| FA_tup xs : a = VTup xs -> fun_arg a
+| FA_other : graph (norm a) = None -> AsFunction a = TypeErr -> fun_arg a.
+
+Definition fun_arg_of (a : value) : fun_arg a.
+Proof.
+  destruct a; try (apply FA_other; reflexivity).
+  - eapply FA_tup. reflexivity.
+  - eapply FA_fun. reflexivity.
+Defined.
+
+Lemma sorted_lookup_None kvs c : NoDup (map canon (map fst kvs)) ->
+  (lookup (sort_dedup kv_cmp (map ckv kvs)) c = None <-> ~ In c (map canon (map fst kvs))).
+Proof.
+  intros Nd. rewrite lookup_None. rewrite <- ckv_keys. split; intros H Hin; apply H.
+  - apply in_map_iff in Hin as (p & <- & Hp). apply in_map. rewrite kvsort_In. exact Hp.
+  - apply in_map_iff in Hin as (p & <- & Hp). apply in_map. rewrite kvsort_In in Hp. exact Hp.
+Qed.
+
+Theorem atat_lemma f g : fine f -> fine g ->
+  allowed (is_tuprep f \/ is_tuprep g) (spec_atat (norm f) (norm g)) (ModuleDoubleAtSignSymbol f g).
+Proof.
+  intros Ff Fg.
+  destruct (fun_arg_of f) as [kf ->|xs ->|Hn Hi].
+  - destruct (fun_arg_of g) as [kg ->|ys ->|Hn Hi].
+    + destruct (fine_fun kf Ff) as (Hkf & Nf & ->). destruct (fine_fun kg Fg) as (Hkg & Ng & ->).
+      cbn [spec_atat graph ModuleDoubleAtSignSymbol AsFunction bind].
+      destruct (fold_fun_add kf kg (fine_pairs_rep kf Hkf) (fine_pairs_rep kg Hkg) Nf Ng) as (I1 & I2 & I3).
+      apply fun_result; auto.
+      * intros k v Hin. apply I1 in Hin as [Hin|Hin]; eauto.
+      * intros p. rewrite <- ckvp_ckv, I3, !ckvp_ckv. rewrite in_app_iff, filter_In, !kvsort_In.
+        assert (E : forall c, match lookup (sort_dedup kv_cmp (map ckv kf)) c with Some _ => false | None => true end = true
+                              <-> ~ In c (map canon (map fst kf))).
+        { intros c. rewrite <- sorted_lookup_None by auto. destruct (lookup _ c); split; congruence. }
+        rewrite E. tauto.
+    + (* right operand a tuple: the runtime refuses (documented restriction) *)
+      assert (ModuleDoubleAtSignSymbol (VFun kf) (VTup ys) = TypeErr) as -> by reflexivity.
+      destruct (spec_atat _ _); cbn; auto. right. split; auto. right. eexists; reflexivity.
+    + assert (ModuleDoubleAtSignSymbol (VFun kf) g = TypeErr) as ->.
+      { unfold ModuleDoubleAtSignSymbol. cbn. rewrite Hi. reflexivity. }
+      unfold spec_atat. rewrite Hn. destruct (graph (norm (VFun kf))); reflexivity.
+  - assert (ModuleDoubleAtSignSymbol (VTup xs) g = TypeErr) as -> by reflexivity.
+    destruct (spec_atat _ _); cbn; auto. right. split; auto. left. eexists; reflexivity.
+  - assert (ModuleDoubleAtSignSymbol f g = TypeErr) as ->.
+    { unfold ModuleDoubleAtSignSymbol. rewrite Hi. reflexivity. }
+    unfold spec_atat. rewrite Hn. reflexivity.
+Qed.
+
+(* [k1 |-> v1, ..., kn |-> vn] for pairwise different keys *)
+Theorem makerecord_lemma pairs :
+  (forall k v, In (k, v) pairs -> fine k /\ fine v) -> NoDup (map canon (map fst pairs)) ->
+  allowed False (SOk (mk_graph (map ckv pairs))) (MakeRecordV pairs).
+Proof.
+  intros Hf Nd. unfold MakeRecordV, MakeRecord.
+  destruct (fold_fun_add pairs [] (fine_pairs_rep pairs Hf) (fun p H => match H with end) Nd (NoDup_nil _)) as (I1 & I2 & I3).
+  apply fun_result; auto.
+  - intros k v Hin. apply I1 in Hin as [[]|Hin]. eauto.
+  - intros p. rewrite <- !ckvp_ckv, I3. cbn [map In]. tauto.
+Qed.
+
+(* ------------------------------------------------------------------ [x \in S, y \in T |-> e] *)
+Lemma NoDup_app_disjoint {A} (l1 l2 : list A) :
+  NoDup l1 -> NoDup l2 -> (forall x, In x l1 -> ~ In x l2) -> NoDup (l1 ++ l2).
+Proof.
+  induction l1 as [|a l1 IH]; cbn; intros N1 N2 Hd; auto.
+  inversion N1 as [|? ? Ha N1']; subst. constructor.
+  - intros Hin. apply in_app_or in Hin as [Hin|Hin]; auto. apply (Hd a); auto.
+  - apply IH; auto.
+Qed.
+
+Lemma NoDup_sproduct sets : (forall s, In s sets -> NoDup s) -> NoDup (sproduct sets).
+Proof.
+  induction sets as [|s sets IH]; intros Hs; cbn.
+  - constructor; [intros []|constructor].
+  - assert (NP : NoDup (sproduct sets)) by (apply IH; intros; apply Hs; cbn; auto).
+    assert (Ns : NoDup s) by (apply Hs; cbn; auto).
+    clear IH Hs. induction s as [|e s IHs]; cbn; [constructor|].
+    inversion Ns as [|? ? He Ns']; subst.
+    apply NoDup_app_disjoint; auto.
+    + apply FinFun.Injective_map_NoDup; auto. intros a b [= E]. exact E.
+    + intros c Hc Hc'. apply in_map_iff in Hc as (tl & <- & _).
+      apply in_flat_map in Hc' as (e' & He' & Hc'). apply in_map_iff in Hc' as (tl' & [= -> _] & _). auto.
+Qed.
+
+Lemma sproduct_map (f : value -> value) sets :
+  map (map f) (sproduct sets) = sproduct (map (map f) sets).
+Proof.
+  induction sets as [|s sets IH]; cbn; [reflexivity|].
+  rewrite <- IH. induction s as [|e s IHs]; cbn; [reflexivity|].
+  rewrite map_app, IHs. f_equal. rewrite !map_map. reflexivity.
+Qed.
+
+Lemma product_one (s : list value) : product [s] = map (fun e => [e]) s.
+Proof. cbn. induction s as [|e s IH]; cbn; [reflexivity|]. rewrite IH. reflexivity. Qed.
+
+Definition mkfun_key (one : bool) (c : list value) : value := if one then hd VDefault c else VTup c.
+
+Lemma mkfun_loop_fold one b (g : list value -> value) combos : forall acc,
+  (forall c, In c combos -> exists r, b c = Ok r /\ fine r /\ canon r = g (map canon c)) ->
+  exists pairs, mkfun_loop one b combos acc = Ok (fold_left (fun a p => fun_add a (fst p) (snd p)) pairs acc) /\
+                map fst pairs = map (mkfun_key one) combos /\
+                Forall2 (fun c p => fine (snd p) /\ canon (snd p) = g (map canon c)) combos pairs.
+Proof.
+  induction combos as [|c combos IH]; intros acc Hb; cbn.
+  - exists []. repeat split; constructor.
+  - destruct (Hb c (or_introl eq_refl)) as (r & -> & Fr & Er). cbn [bind].
+    destruct (IH (fun_add acc (mkfun_key one c) r)) as (pairs & E & Ek & Ef).
+    { intros c' Hc'. apply Hb. right; auto. }
+    exists ((mkfun_key one c, r) :: pairs). cbn. unfold mkfun_key in *. rewrite E. split; auto. split.
+    + f_equal. exact Ek.
+    + constructor; auto.
+Qed.
+
+Lemma Forall2_in_r {A B} (R : A -> B -> Prop) l l' y : Forall2 R l l' -> In y l' -> exists x, In x l /\ R x y.
+Proof.
+  induction 1 as [|a b l l' Hab Hr IH]; cbn; [tauto|]. intros [<-|Hy]; [exists a; auto|].
+  destruct (IH Hy) as (x & Hx & Rx). exists x. auto.
+Qed.
+
+Lemma Forall2_combine_in {A B} (R : A -> B -> Prop) l l' x y :
+  Forall2 R l l' -> In (x, y) (combine l l') -> R x y.
+Proof.
+  induction 1 as [|a b l l' Hab Hr IH]; cbn; [tauto|]. intros [[= <- <-]|H]; auto.
+Qed.
+
+Theorem mkfun_lemma vs b g : fine_sets vs ->
+  (forall sets, vs = map VSet sets -> body_refines b g sets) ->
+  allowed False (spec_mkfun (map norm vs) g) (MakeFunction vs b).
+Proof.
+  intros Hf Hb. unfold MakeFunction.
+  destruct vs as [|v1 vs']; [reflexivity|].
+  remember (v1 :: vs') as vs eqn:Evs.
+  assert (negb (Nat.eqb (List.length vs) 0) = true) as -> by (subst vs; reflexivity). cbn [require bind].
+  pose proof (as_sets_spec vs Hf) as HA. destruct (as_sets vs) as [sets| | |] eqn:EA; try contradiction.
+  - destruct HA as [E Es]. cbn [bind].
+    assert (Hsf : forall s, In s sets -> forall x, In x s -> fine x) by (apply (as_sets_fine vs sets Hf E)).
+    assert (Hsn : forall s, In s sets -> NoDup (map canon s)).
+    { intros s Hs. assert (F : fine (VSet s)) by (apply Hf; rewrite E; apply in_map, Hs). apply (fine_set s F). }
+    set (one := Nat.eqb (List.length vs) 1).
+    destruct (mkfun_loop_fold one b g (product sets) []) as (pairs & -> & Ek & Ef).
+    { intros c Hc. apply (Hb sets E). apply in_sproduct. exact Hc. }
+    cbn [bind].
+    (* keys and values of the bindings *)
+    assert (Hpf : forall k v, In (k, v) pairs -> fine k /\ fine v).
+    { intros k v Hin. destruct (Forall2_in_r _ _ _ (k, v) Ef Hin) as (c & Hc & Fv & _). split; auto.
+      assert (Hk : In k (map fst pairs)) by (apply in_map_iff; exists (k, v); auto).
+      rewrite Ek in Hk. apply in_map_iff in Hk as (c' & <- & Hc').
+      unfold mkfun_key. destruct one eqn:Eo.
+      - destruct c' as [|x c'']; [repeat split; exact I|]. cbn. apply (product_members sets (x :: c'') Hsf Hc'). cbn; auto.
+      - apply fine_tup. apply (product_members sets c' Hsf Hc'). }
+    assert (Hkeys : map canon (map fst pairs) = map (fun c => canon (mkfun_key one c)) (product sets)).
+    { rewrite Ek, map_map. reflexivity. }
+    assert (Hlen : List.length sets = List.length vs) by (rewrite E, map_length; reflexivity).
+    assert (NdK : NoDup (map canon (map fst pairs))).
+    { rewrite Hkeys. unfold mkfun_key. destruct one eqn:Eo.
+      - (* one set: the keys are its members *)
+        apply Nat.eqb_eq in Eo. destruct sets as [|s [|s2 sets']]; cbn in Hlen; try (rewrite Eo in Hlen; discriminate).
+        rewrite product_one, map_map. cbn. apply (Hsn s). cbn; auto.
+      - assert (map (fun c => canon (VTup c)) (product sets) = map VTup (map (map canon) (product sets))) as ->
+          by (rewrite !map_map; reflexivity).
+        apply FinFun.Injective_map_NoDup; [intros x y [= H]; exact H|].
+        change (product sets) with (sproduct sets). rewrite sproduct_map. apply NoDup_sproduct.
+        intros s' Hs'. apply in_map_iff in Hs' as (s & <- & Hs). apply Hsn, Hs. }
+    destruct (fold_fun_add pairs [] (fine_pairs_rep pairs Hpf) (fun p H => match H with end) NdK (NoDup_nil _)) as (I1 & I2 & I3).
+    (* the spec side *)
+    assert (Hspec : spec_mkfun (map norm vs) g =
+                    SOk (mk_graph (map (fun c => (canon (mkfun_key one c), g (map canon c))) (product sets)))).
+    { unfold spec_mkfun, one. rewrite Evs in *. destruct vs' as [|v2 vs'']; cbn [map] in *.
+      - (* one set *)
+        rewrite Es.
+        destruct sets as [|s [|s2 sets']]; cbn in Hlen; try discriminate. cbn [map List.length Nat.eqb].
+        f_equal. unfold mk_graph. f_equal. apply kvsort_ext. intros p.
+        rewrite !in_map_iff. split.
+        + intros (x & <- & Hx). rewrite vsort_In in Hx. apply in_map_iff in Hx as (e & <- & He).
+          exists [e]. split; [reflexivity|]. rewrite product_one. apply in_map_iff. exists e. auto.
+        + intros (c & <- & Hc). rewrite product_one in Hc. apply in_map_iff in Hc as (e & <- & He). cbn.
+          exists (canon e). split; auto. rewrite vsort_In. apply in_map. exact He.
+      - (* several sets: tuples as keys *)
+        rewrite Es. cbn [List.length Nat.eqb].
+        f_equal. unfold mk_graph. f_equal. apply kvsort_ext. intros p. rewrite !in_map_iff. split.
+        + intros (cc & <- & Hc). apply in_sproduct, forall2_in_canon in Hc as (c & Hc & <-).
+          exists c. split; [reflexivity|]. apply in_sproduct. exact Hc.
+        + intros (c & <- & Hc). exists (map canon c). split; [reflexivity|].
+          apply in_sproduct, forall2_in_canon. exists c. split; auto. apply in_sproduct. exact Hc. }
+    rewrite Hspec. apply fun_result; auto.
+    + intros k v Hin. apply I1 in Hin as [[]|Hin]. eauto.
+    + intros p. rewrite <- ckvp_ckv, I3. cbn [map In]. split.
+      * intros [Hin|[[] _]]. apply in_map_iff in Hin as ([k v] & <- & Hin).
+        (* position of the binding *)
+        assert (Hcomb : In (k, v) pairs) by exact Hin.
+        clear Hin. revert Hcomb. generalize (product sets) Ek Ef. clear.
+        intros combos Ek Ef. revert pairs Ek Ef. induction combos as [|c combos IH]; intros pairs Ek Ef Hin.
+        -- inversion Ef; subst. destruct Hin.
+        -- inversion Ef as [|? p0 ? pairs' [_ Ev] Hr]; subst. cbn in Ek. injection Ek as Ek0 Ek'.
+           destruct Hin as [->|Hin].
+           ++ left. unfold ckvp. cbn in *. rewrite Ek0, Ev. reflexivity.
+           ++ right. apply (IH pairs'); auto.
+      * intros Hin. left. apply in_map_iff in Hin as (c & <- & Hc).
+        revert Hc. generalize (product sets) Ek Ef. clear.
+        intros combos Ek Ef. revert pairs Ek Ef. induction combos as [|c0 combos IH]; intros pairs Ek Ef Hin; [destruct Hin|].
+        inversion Ef as [|? p0 ? pairs' [_ Ev] Hr]; subst. cbn in Ek. injection Ek as Ek0 Ek'.
+        destruct Hin as [->|Hin].
+        -- left. unfold ckvp. destruct p0 as [k0 v0]. cbn in *. rewrite Ek0, Ev. reflexivity.
+        -- right. apply (IH pairs'); auto.
+  - unfold spec_mkfun. rewrite Evs in *. destruct vs' as [|v2 vs'']; cbn [map] in *; rewrite HA; reflexivity.
+Qed.
